@@ -57,7 +57,7 @@ func stripChangeTime(m proto.Message, keepPresence bool) proto.Message {
 		}
 		if fd := mm.Descriptor().Fields().ByName("change_time"); fd != nil {
 			if keepPresence && mm.Has(fd) && fd.Message() != nil && !fd.IsList() && !fd.IsMap() {
-				mm.Set(fd, pref.ValueOfMessage(mm.NewField(fd).Message()))
+				mm.Set(fd, pref.ValueOfMessage(emptyChild(mm, fd)))
 			} else {
 				mm.Clear(fd)
 			}
@@ -247,5 +247,6 @@ func cloneExact(m proto.Message) proto.Message {
 	if err := proto.Unmarshal(b, c); err != nil {
 		panic(err)
 	}
+	concretize(c.ProtoReflect())
 	return c
 }
